@@ -12,7 +12,10 @@ ENGINES = {
     "node": {"cwd": "$REPO", "pkg": ["-p", "radicle-node", "--lib"], "slots": 4},
     # external harness crates: path dependencies on /repo/crates/*, public API only
     # shadow crates: regenerated from /repo's sources on every run (bin/shadowgen.py)
-    "shadow_crdt": {"cwd": "$CACHE/shadow/crdt", "pkg": [], "slots": 4, "prepare": "prepare_crdt"},
+    # counterexamples of the crdt shadow are replayed against the REAL crate (std B-trees): /repo's radicle-crdt has the
+    # same harness file hooked in under cfg(kani)
+    "shadow_crdt": {"cwd": "$CACHE/shadow/crdt", "pkg": [], "slots": 4, "prepare": "prepare_crdt",
+                    "playback": {"cwd": "$REPO", "pkg": ["-p", "radicle-crdt", "--features", "radicle-crypto/ssh"]}},
     "shadow_limiter": {"cwd": "$CACHE/shadow/limiter", "pkg": [], "slots": 1, "prepare": "prepare_limiter"},
     "shadow_sync": {"cwd": "$CACHE/shadow/sync", "pkg": [], "slots": 2, "prepare": "prepare_sync"},
     "shadow_canonical": {"cwd": "$CACHE/shadow/canonical", "pkg": [], "slots": 2, "prepare": "prepare_canonical"},
@@ -21,7 +24,7 @@ ENGINES = {
 }
 SETUP_ENGINES = ["node", "ext_c27", "shadow_crdt", "shadow_sync", "shadow_canonical", "ext_radicle", "shadow_limiter"]
 # replay include files that exist in harness sources of an engine but belong to no registered harness (yet)
-EXTRA_REPLAY_FILES = {"shadow_limiter": ["shadow_limiter"], "ext_radicle": ["ext_radicle_c19", "ext_radicle_c21"], "shadow_canonical": ["shadow_canonical"], "shadow_sync": ["shadow_sync"], "shadow_crdt": ["shadow_crdt"], "ext_c27": ["ext_c27"], "node": ["wire_c13", "wire_c14", "wire_c15", "service_c29", "limiter"]}
+EXTRA_REPLAY_FILES = {"shadow_limiter": ["shadow_limiter"], "ext_radicle": ["ext_radicle_c19", "ext_radicle_c21"], "shadow_canonical": ["shadow_canonical"], "shadow_sync": ["shadow_sync"], "shadow_crdt": ["shadow_crdt", "shadow_crdt_vcoll"], "ext_c27": ["ext_c27"], "node": ["wire_c13", "wire_c14", "wire_c15", "service_c29", "limiter"]}
 
 Q = ["quick", "thorough"]
 T = ["thorough"]
@@ -222,7 +225,7 @@ for _n in ["c22_lwwmap_greatest_clock_wins", "c22_lwwset_insert_wins_at_equal_cl
     _c22h.append(H(_n, "shadow_crdt", _M22, "shadow_crdt", tiers=Q, covers=2 if "lwwmap" in _n else 1, stubs=_S22,
         functions=["LWWMap::{insert,remove,get,contains_key}", "LWWSet::{insert,remove,contains}", "GMap::insert", "Semilattice::merge for LWWMap/LWWSet/GMap"],
         bounds="two writes (insert or remove, symbolic) to one key with symbolic u8 clocks and values, applied sequentially and via merge of two replicas"))
-_c22h.append(H("c22_vcoll_matches_std_btreemap", "shadow_crdt", _M22, "shadow_crdt", tiers=Q, covers=2, stubs=[], functions=["vcoll::BTreeMap vs std::collections::BTreeMap"],
+_c22h.append(H("c22_vcoll_matches_std_btreemap", "shadow_crdt", "verif_kani_vcoll", "shadow_crdt_vcoll", tiers=Q, covers=2, stubs=[], functions=["vcoll::BTreeMap vs std::collections::BTreeMap"],
     bounds="two inserts over a 2-key universe, symbolic values: insert results, len, get, first_key_value agree"))
 for _k in _g22.LWW + _g22.GROW:
     for _l in _g22.layouts(_k):
